@@ -378,12 +378,59 @@ def redirect_events(ctx, rng):
     return ev
 
 
+def app_decision_events(ctx, rng):
+    """the same decision through WebSocketApp.run_forever(): proxy and no_proxy given by option and / or environment in
+    every mix (the attempt is refused at the first dial: what was dialled first is the decision)"""
+    import websocket
+    ev = []
+    A = {"kind": "name", "labels": ["a", "test"]}
+    entries = {"exempt_host": {"kind": "host", "labels": ["a", "test"]}, "exempt_dot": {"kind": "dot", "labels": ["test"]},
+               "star": {"kind": "star"}, "other": {"kind": "host", "labels": ["b", "test"]}}
+    for pvia in ("option", "env"):
+        for npvia in ("option", "no_proxy", "NO_PROXY", "none"):
+            for ename, entry in entries.items():
+                if npvia == "none" and ename != "other":
+                    continue
+                w = World(resolver={"proxy.test": ["10.8.8.8"], "*": ["10.9.9.9"]}, outcomes={"10.8.8.8": "refused", "10.9.9.9": "refused"})
+                kw, env = {}, {}
+                if pvia == "option":
+                    kw = {"http_proxy_host": "proxy.test", "http_proxy_port": 3128}
+                else:
+                    env["http_proxy"] = "http://proxy.test:3128"
+                lst = [] if npvia == "none" else [entry]
+                if npvia == "option":
+                    kw["http_no_proxy"] = [entry_text(entry)]
+                elif npvia != "none":
+                    env[npvia] = entry_text(entry)
+                errs = []
+                with clean_env(**env), w:
+                    app = websocket.WebSocketApp("ws://a.test/start", on_error=lambda a, e: errs.append(e))
+                    try:
+                        app.run_forever(**kw)
+                    except Exception as e:      # noqa
+                        errs.append(e)
+                res = [e for e in w.log if e["ev"] == "resolve"]
+                if not res:
+                    got = {"kind": "none", "host": "", "port": 0}
+                elif res[0]["host"] == "proxy.test":
+                    got = {"kind": "proxy", "host": "proxy.test", "port": res[0]["port"]}
+                else:
+                    got = {"kind": "direct", "host": "", "port": 0}
+                ev.append({"ev": "decision",
+                           "cfg": {"secure": False, "host": A, "optHost": "proxy.test" if pvia == "option" else "", "optPort": 3128 if pvia == "option" else 0,
+                                   "noProxyOpt": lst if npvia == "option" else [], "noProxyEnvLower": lst if npvia == "no_proxy" else [],
+                                   "noProxyEnvUpper": lst if npvia == "NO_PROXY" else [],
+                                   "envLower": "proxy.test" if pvia == "env" else "", "envLowerPort": 3128, "envUpper": "", "envUpperPort": 0},
+                           "got": got, "env": env, "entry": "WebSocketApp", "exc": type(errs[0]).__name__ if errs else ""})
+    return ev
+
+
 def main(ctx):
     rng = random.Random(ctx.seed * 17 + 19)
     c18.run_target_mc(ctx, emit=False, tag="c19_targetmc")
     total = 0
     for tag, fn in (("exemptions", exempt_events), ("decisions", decision_events), ("tunnels", tunnel_events),
-                    ("redirect_hops", redirect_events)):
+                    ("redirect_hops", redirect_events), ("app_decisions", app_decision_events)):
         ev = fn(ctx, rng)
         total += len(ev)
         for e, faults in c18.judge_batch(ctx, "C19", ev, tag):
@@ -391,7 +438,7 @@ def main(ctx):
             if tag == "exemptions":
                 what = "host %s with no_proxy %s (%s): %s, library answered %s" % (
                     host_text(e["host"]), [entry_text(x) for x in e["list"]], e["source"], faults, e["got"])
-            elif tag in ("decisions", "redirect_hops"):
+            elif tag in ("decisions", "redirect_hops", "app_decisions"):
                 what = "decision for cfg %s env %s: %s, got %s" % (json.dumps(e["cfg"]), e["env"], faults, e["got"])
             else:
                 what = "tunnel reply=%s auth=%r origin=%s:%s via %s: %s; CONNECT=%r creds=%r exc=%s" % (
